@@ -56,23 +56,21 @@ theorem baseI_head (s : St) (h : Inv s) (v : Int) (e : Elem) (rest : List Sto) (
   simp only [RcPre, InsShape, hb] at this
   refine ⟨hpc, ?_, ?_, hv⟩ <;> grind
 
-set_option maxHeartbeats 4000000 in
+set_option maxHeartbeats 1000000 in
 /-- every `top` value that reaches memory is at most `size` -/
 theorem top_head_le (s : St) (h : Inv s) (hb : Bnd s) (v : Int) (rest : List Sto) (hbuf : s.bufO = .top v :: rest) :
     v ≤ s.size := by
   have h1 := hb.lts; have h2 := hb.ltv; have h3 := hb.sz
   cases hpc : s.opc
-  all_goals (cases h; simp only [hpc, ownerLocked, carry, resetting, ownerFlight] at *)
-  all_goals grind [CarryShape, Pu2Shape, PofShape, Po5cShape, Po6Shape, Po8Shape, Po9Shape, InsShape, Rc1Shape, Rc2Shape, RcPre, RcShape, Cl2Shape, Cl3Shape]
+  all_goals tso_shapes_core h hpc
 
-set_option maxHeartbeats 4000000 in
+set_option maxHeartbeats 1000000 in
 /-- every `base` value the owner sends to memory is non-negative -/
 theorem base_head_ge (s : St) (h : Inv s) (hb : Bnd s) (v : Int) (rest : List Sto) (hbuf : s.bufO = .base v :: rest) :
     0 ≤ v := by
   have h1 := hb.lb0; have h2 := hb.lbv; have h3 := hb.sz
   cases hpc : s.opc
-  all_goals (cases h; simp only [hpc, ownerLocked, carry, resetting, ownerFlight] at *)
-  all_goals grind [CarryShape, Pu2Shape, PofShape, Po5cShape, Po6Shape, Po8Shape, Po9Shape, InsShape, Rc1Shape, Rc2Shape, RcPre, RcShape, Cl2Shape, Cl3Shape]
+  all_goals tso_shapes_core h hpc
 
 set_option maxHeartbeats 1000000 in
 theorem bnd_flushO (s s' : St) : Inv s → Bnd s → step s .flushO = some s' → Bnd s' := by
